@@ -84,9 +84,8 @@ func runBFS(r *core.Run, depth int, env []string, crashed *[]string) bfsReport {
 	rep.States = int64(len(frontier)) // the initial states
 	rep.StatesPerLevel = append(rep.StatesPerLevel, int64(len(frontier)))
 	for level := 1; level <= depth; level++ {
-		if len(r.P.Violations) > 0 && level > 1 {
-			// keep going: other violations may sit deeper; states with a violation are not expanded
-		}
+		// violations do not stop the search: other ones may sit deeper; a state reached by a
+		// violating step is not expanded
 		if r.Expired() {
 			r.Cap(fmt.Sprintf("wall-clock budget reached before level %d of the de-duplicating search", level))
 			rep.StoppedAtBudget = true
@@ -109,7 +108,6 @@ func runBFS(r *core.Run, depth int, env []string, crashed *[]string) bfsReport {
 		rep.Histories += r.P.Counters["histories"] - before
 		// merge the workers' successor lists
 		best := map[string]bfsItem{}
-		var succ int64
 		for wi := 0; wi < nWorkers; wi++ {
 			p := in + ".out" + strconv.Itoa(wi)
 			of, err := os.Open(p)
@@ -123,7 +121,6 @@ func runBFS(r *core.Run, depth int, env []string, crashed *[]string) bfsReport {
 				if json.Unmarshal(sc.Bytes(), &it) != nil {
 					continue
 				}
-				succ++
 				k := strconv.Itoa(it.C) + ":" + it.K
 				if _, dup := seen[k]; dup {
 					continue
@@ -145,7 +142,6 @@ func runBFS(r *core.Run, depth int, env []string, crashed *[]string) bfsReport {
 		sort.Slice(frontier, func(i, j int) bool { return less(frontier[i], frontier[j]) })
 		rep.States += int64(len(frontier))
 		rep.StatesPerLevel = append(rep.StatesPerLevel, int64(len(frontier)))
-		_ = succ
 		rep.Successors = append(rep.Successors, r.P.Counters["bfs_successors"]-beforeS)
 		rep.MaxDepth = level
 		if len(frontier) == 0 {
